@@ -89,6 +89,11 @@ class Ref:
           if s_ == '/'.join(sc[:i]) and sel == op['sel']:
             rows[arg] = v
       return {'ok': sorted([a, v] for a, v in rows.items())}
+    if name == 'getbq':
+      m = suffix_matches(self.reg, op['q'])
+      if len(m) != 1:
+        return {'err': 'KeyError' if m else 'ValueError'}
+      return self.step(dict(op, op='getb', sel=m[0]))
     if name == 'hook':
       self.hooks.append(op)
       return {'ok': None}
